@@ -153,14 +153,25 @@ func vScenarioC10(rc *runCtx) {
 	}
 	// the stop may come after an earlier pause of this transfer (question opened, left open for a long while - the
 	// user asked never to time out - and answered "continue"): the server's stop is no slower for it
-	priorPause := !enumerated && cfg.upload && (cfg.protocol == 0 || cfg.protocol >= 3) && tp.Bool("c10.priorpause", 300)
+	priorPause := !enumerated && (cfg.protocol == 0 || cfg.protocol >= 3) && tp.Bool("c10.priorpause", 300)
+	priorCycles, stallDuring := 1, false
 	var priorLen time.Duration
 	if priorPause {
 		cfg.timeout = 0
 		o.flags = cfg.flags()
 		rc.res.Scenario["flags"] = strings.Join(o.flags, " ")
 		how = []string{"sigint", "sigterm", "user-keep", "api-keep", "user-delete"}[tp.Draw("c10.priorhow", 5)]
+		if !cfg.upload && (how == "sigint" || how == "sigterm") {
+			// a receiving client that pauses while it owes no acknowledgement sends nothing at all, so the sending
+			// server cannot tell the pause from a slow link and, by its own rule (twice the slowest recent chunk),
+			// takes that long to stop: not what this history is about - after a download's pause the client stops
+			how = []string{"user-keep", "api-keep", "user-delete"}[tp.Draw("c10.priorhowdn", 3)]
+		}
 		priorLen = time.Duration(40+tp.Draw("c10.priorlen", 120)) * time.Second
+		priorCycles = 1 + tp.Draw("c10.priorcycles", 2)
+		// (only for downloads stopped by the client, and only the client is timed then: the sending server
+		// rightly counts a stalled link as a slow one and takes its time)
+		stallDuring = !cfg.upload && tp.Bool("c10.priorstall", 400)
 	}
 	// the user may have asked never to time out: a stop still ends both sides (the peer is told, it does not wait)
 	if !priorPause && !enumerated && tp.Bool("c10.notimeout", 150) {
@@ -191,11 +202,24 @@ func vScenarioC10(rc *runCtx) {
 			rc.fault("earlier-pause-continued")
 			x.paused = true
 			w.Go("user", x.client, func() {
-				x.kbd.Write([]byte{0x03})
-				verifsim.Sleep(priorLen)
-				x.typeKeys("jj", 20*time.Millisecond)
-				x.typeKeys("\r", 20*time.Millisecond)
-				verifsim.Sleep(time.Duration(100+tp.Draw("c10.priorgap", 900)) * time.Millisecond)
+				for c := 0; c < priorCycles; c++ {
+					if !x.filter.IsTransferringFiles() {
+						break
+					}
+					if c == priorCycles-1 && stallDuring {
+						// the link happens to stall while the question is open: a read that began before the question
+						// is still waiting when it is answered
+						rc.fault("link-stalled-while-question-open")
+						for _, l := range x.down {
+							l.StallUntil = w.Now() + priorLen + time.Second
+						}
+					}
+					x.kbd.Write([]byte{0x03})
+					verifsim.Sleep(priorLen)
+					x.typeKeys("jj", 20*time.Millisecond)
+					x.typeKeys("\r", 20*time.Millisecond)
+					verifsim.Sleep(time.Duration(100+tp.Draw("c10.priorgap", 900)) * time.Millisecond)
+				}
 				continued = true
 			})
 		})
@@ -232,7 +256,7 @@ func vScenarioC10(rc *runCtx) {
 	})
 	rc.res.ClassKey = fmt.Sprintf("%s %s prior=%v", cfg.key(), how, priorPause)
 	rc.res.Scenario["stop"] = how
-	rc.res.Scenario["earlier_pause"] = priorLen.String()
+	rc.res.Scenario["earlier_pause"] = fmt.Sprintf("%v x%d", priorLen, priorCycles)
 	x.start()
 	w.Run(x.finished)
 	rep := x.report()
@@ -260,7 +284,7 @@ func vScenarioC10(rc *runCtx) {
 			how, stopAt, rep.serverExited, clientBusy, w.Now(), vClip(rep.clientFail, 100), vClip(rep.serverFail, 100), vClip(w.ParkedSummary(), 400))
 		return
 	}
-	if x.serverDoneAt > stopAt+bound || x.clientDoneAt > stopAt+bound {
+	if (x.serverDoneAt > stopAt+bound && !stallDuring) || x.clientDoneAt > stopAt+bound {
 		rc.violate("late", "C10:late:"+how, "stop (%s) at %v: server returned at %v, client at %v; bound 3*max(T,20s)+10s with T=%v", how, stopAt, x.serverDoneAt, x.clientDoneAt, T)
 		return
 	}
